@@ -66,6 +66,12 @@ class RebuildProp(Prop):
                  "what": "candidate search / copy rule (fixed variant): Safe always; Complete when no partially matching decoy precedes the intact copy"},
                 {"module": "FindMatches.tla", "cfg": "MC_FindMatches_code.cfg", "expect": "fail",
                  "what": "pinned commit: first same-size candidate ends the search"},
+                {"module": "FindMatches.tla", "cfg": "MC_FindMatches_pads.cfg",
+                 "what": "piece-aligned metafiles: padding entries (zeros, never searched / copied) among up to 3 entries"},
+                {"module": "FindMatches.tla", "cfg": "MC_FindMatches_pads4.cfg", "tier": "thorough", "timeout": 3000,
+                 "what": "padding entries among up to 4 entries: 2.1 M states"},
+                {"module": "FindMatches.tla", "cfg": "MC_FindMatches_nopad.cfg", "expect": "fail",
+                 "what": "before 4af3d68: padding entries looked up like files, pieces containing padding never verify"},
                 {"module": "FindMatches.tla", "cfg": "MC_FindMatches_partial.cfg", "expect": "fail",
                  "what": "KNOWN FINDING in the model: a partially matching decoy enumerated before the intact copy is placed and kept"}]
 
@@ -125,7 +131,7 @@ class RebuildProp(Prop):
         return (case["version"], case["P"], t["name"], tuple(f["size"] for f in t["files"]),
                 str([[f["size"] for f in t2["files"]] for t2 in case.get("more_trees", [])]),
                 tuple(tuple(c["cls"] for c in f.get("cands", [])) for f in t["files"]),
-                tuple(f.get("dest_pre") for f in t["files"]), case.get("repeat"), case.get("meta_name"),
+                tuple(f.get("dest_pre") for f in t["files"]), case.get("repeat"), case.get("meta_name"), case.get("align"),
                 tuple(tuple(f.get("meta_path", [])) for f in t["files"]))
 
     def sample(self, case, rec):
@@ -233,6 +239,22 @@ class C13(RebuildProp):
                  "clauses": list(self.clauses), "meta_args": ("dir", "files", "both")[k % 3 if kind != 2 else (k // 3) % 3],
                  "route": "cli" if k % 5 == 0 else "lib"}
             out.append(c)
+        # piece-aligned v1 metafiles (padding entries in the file list): this tool's own --align output and
+        # reference-encoded BEP 47 lists, with and without a padding entry after the last file
+        for k in range(60 if tier == "thorough" else 18):
+            P = (B, 2 * B)[k % 2]
+            A = [a for a in alphabet(P) if a <= 3 * P + B + 1]
+            sh = ("D2", "D3", "D4", "D2n")[k % 4]
+            sizes = tuple(rng.choice(A) for _ in SHAPES[sh])
+            if sum(sizes) == 0:
+                sizes = (5,) + sizes[1:]
+            c = self.scen(rng, P, 1, (sh, sizes), lambda fi, f: [self.cand(rng, "intact")] if k % 3 else
+                          [self.cand(rng, "decoy_all"), self.cand(rng, "intact")], route="cli" if k % 5 == 0 else "lib")
+            c["align"] = True
+            c["meta_src"] = "ref" if k % 2 else "own"
+            c["extra_keys"] = False
+            c["trailing_pad"] = k % 4 == 1
+            out.append(c)
         # the model-checked universe of FindMatches replayed into the real rebuild (piece length 2)
         out += rebuild_universe(self.clauses, rng, None if tier == "thorough" else 1200)
         # systematic: files ending exactly on a boundary, empty files in every position
@@ -280,7 +302,7 @@ class C14(RebuildProp):
     def cases(self, tier, rng):
         n = 5000 if tier == "thorough" else 260
         out = []
-        pres = ["absent", "correct", "wrong_full", "shorter", "unrelated"]
+        pres = ["absent", "correct", "wrong_full", "shorter", "unrelated", "shorter_dirty"]
         for k in range(n):
             v = (1, 2, 3)[k % 3]
             P = (B, 2 * B)[k % 2]
@@ -305,6 +327,25 @@ class C14(RebuildProp):
                                 return [self.cand(rng, c, search=0, depth=k) for k, c in enumerate(second)]
                             return [self.cand(rng, "intact", search=0)]
                         out.append(self.scen(rng, P, v, (sh, sizes), cands, nsearch=1))
+        # files of a few MiB whose destination holds the remains of an interrupted copy (clean prefix / torn tail)
+        for v in (1, 2, 3):
+            for pre0 in ("shorter", "shorter_dirty"):
+                c = self.scen(rng, 16 * B, v, ("D2", (5 * 2 ** 19 + 3, 70000)), lambda fi, f: [self.cand(rng, "intact", search=0)],
+                              lambda fi, f, pre0=pre0: pre0 if fi == 0 else "absent", nsearch=1)
+                out.append(c)
+        # piece-aligned v1 metafiles (padding entries): nothing may ever be written for a padding entry
+        for k in range(60 if tier == "thorough" else 15):
+            P = (B, 2 * B)[k % 2]
+            A = [a for a in alphabet(P) if a <= 3 * P + B + 1]
+            sh = ("D2", "D3", "D4")[k % 3]
+            sizes = tuple(rng.choice(A) for _ in SHAPES[sh])
+            if sum(sizes) == 0:
+                sizes = (5,) + sizes[1:]
+            c = self.scen(rng, P, 1, (sh, sizes), lambda fi, f: [self.cand(rng, rng.choice(["intact"] + DECOYS))
+                                                                  for _ in range(rng.randrange(3))],
+                          lambda fi, f: rng.choice(pres), repeat=k % 4 == 0)
+            c.update(align=True, meta_src="ref" if k % 2 else "own", extra_keys=False, trailing_pad=k % 4 == 1)
+            out.append(c)
         out += rebuild_universe(self.clauses, rng, None if tier == "thorough" else 1200)
         # two releases of one torrent (same name, same relative path, second file larger) rebuilt one
         # after the other into one destination: the later copy replaces the shorter earlier one and must
